@@ -2,6 +2,6 @@
 # tools/sweep.sh <tier> "<seeds>" ["<ids>"]  - run checks without touching evidence; print everything that is not 'held'
 TIER=${1:-quick}; SEEDS=${2:-"0 1 2"}; IDS=${3:-"C01 C02 C03 C04 C05 C06 C07 C08 C09 C10 C11 C12 C13 C14 C15 C16 C17 C18 C19 C20"}
 cd "$(dirname "$0")/.." || exit 2
-P=${PAR:-16}; [ "$TIER" = thorough ] && P=${PAR:-1}
+P=${PAR:-4}; [ "$TIER" = thorough ] && P=${PAR:-1}
 for s in $SEEDS; do for id in $IDS; do echo "$id $s"; done; done | xargs -P "$P" -L 1 sh -c 'VERIF_NO_EVIDENCE=1 ./check $0 --tier '"$TIER"' --seed $1 2>&1 | grep -E "^VIOLATION|^INCONCLUSIVE|tier='"$TIER"'" | grep -v ": held" | sed "s/^/[seed $1] /"'
 echo "sweep done: tier=$TIER seeds=$SEEDS"
